@@ -67,8 +67,8 @@ CLAIMS = {
          "PARTIAL: vector-level content dependence on the fast path and 'vector < is lexicographical_compare under element <' are decided by the tie: all six operators on pairs of vectors/elements over a 2-3 value domain; the oracle checks the laws on the implementation's own results (irreflexive, asymmetric, transitive, consistent with ==, content-only, vector < = lexicographical_compare under the observed element <).",
          "5 C14"),
  "C11": ("proof (reference copy-assignment reproduces the source tuple and reference swap exchanges the two tuples, for every list and run-table shape; structure and disjointness of the assign/swap run tables; iterators = index arithmetic) + correspondence on reference/iterator/algorithm histories with a content oracle",
-         "Theorem C11_reference_assignment_copies_the_values: for every well-formed list and every shape of the run table, `target = source` (copy form) between element references of equal field sizes in different vectors leaves the target element holding exactly the source's tuple, the source untouched and every byte outside the target element's extent unchanged (AssignThm.v: each step of ElementTraits::assign writes the source byte at the same offset from the element start; RunsThm: the table covers every field; layouts of equally sized elements at storage-aligned addresses are translates). C11_reference_swap_exchanges_the_values (SwapThm.v): swap between references of equal field sizes in different vectors leaves each element holding exactly the other's tuple, nothing else touched - every list and run-table shape; uses C11_runs_do_not_overlap (the runs of calculate_consecutive_indices are pairwise disjoint). C11_*_table_covers_every_field / _runs_hold_only_*: no field skipped, no non-trivial object moved byte-wise. C11_iterators_are_indices. "
-         "PARTIAL: move form, assignment and swap within one vector, iter_swap and rotate / reverse / swap_ranges are modelled as written and decided by the tie: histories of reference assignment in four forms, swap/iter_swap, writes through six access paths incl. structured bindings, iterator batteries on const and mutable iterators, std algorithms, on lists covering every run-table shape up to four fields; content oracle = a Python list of tuples; access paths cross-checked in every observation; static sweep of the run tables.",
+         "Theorem C11_reference_assignment_copies_the_values: for every well-formed list and every shape of the run table, `target = source` (copy form) between element references of equal field sizes in different vectors leaves the target element holding exactly the source's tuple, the source untouched and every byte outside the target element's extent unchanged (AssignThm.v: each step of ElementTraits::assign writes the source byte at the same offset from the element start; RunsThm: the table covers every field; layouts of equally sized elements at storage-aligned addresses are translates). C11_reference_swap_exchanges_the_values (SwapThm.v): swap between references of equal field sizes in different vectors leaves each element holding exactly the other's tuple, nothing else touched - every list and run-table shape; uses C11_runs_do_not_overlap (the runs of calculate_consecutive_indices are pairwise disjoint). C11_reference_move_assignment_moves_the_values (MoveThm.v): the move form over the move run table - target gets the source's tuple, the source holds moved-from objects exactly in the not trivially move-assignable fields. C11_*_table_covers_every_field / _runs_hold_only_*: no field skipped, no non-trivial object moved byte-wise. C11_iterators_are_indices. "
+         "PARTIAL: assignment and swap within one vector, iter_swap and rotate / reverse / swap_ranges are modelled as written and decided by the tie: histories of reference assignment in four forms, swap/iter_swap, writes through six access paths incl. structured bindings, iterator batteries on const and mutable iterators, std algorithms, on lists covering every run-table shape up to four fields; content oracle = a Python list of tuples; access paths cross-checked in every observation; static sweep of the run tables.",
          "5 C11"),
  "C12": ("proof (element construction, copy construction, copy assignment on both paths, stealing move assignment, swap: the target holds exactly the source's tuple; moved-from state) + correspondence on element histories over allocator kinds with a content oracle",
          "Theorems C12_*: for every well-formed list of trivially copy/move-constructible types an element constructed from a reference (any aligned source position, junk, copy or move form) owns a fresh block that holds exactly the source tuple with the field table of that tuple, source unchanged, units = rounded-up byte size; copy construction likewise; copy assignment on the re-allocating path into ANY target (moved-from or not, any size) and - for every value-type category and run-table shape - on the field-wise path of FixedSize/plain lists leaves the target holding the source's tuple with the right allocator; stealing move assignment hands over block and tuple; swap exchanges contents and (POCS) allocators; a moved-from element owns nothing. "
